@@ -18,6 +18,7 @@ from ..cfg import CFG, path_of
 from ..astutil import unparse, call_name, func_params, strip_docstring
 from .common import site, canon_fn, cfgv, pmatch, nodes_matching, guarded, match, stmts, views
 from ..pattern import norm as pn, unify, find
+from ..flow import Expander
 
 JD = "cuqi/distribution/_joint_distribution.py"
 
@@ -303,6 +304,32 @@ def _r1(chk, repo):
                         bad.append(f"`{unparse(c)[:70]}` passes `{t}` by position")
         chk.decide("C01-R1", f"{dist.qual}.logd/names-kept", not bad and bool(inner), bool(inner), site(repo, f), "values given by name reach the conditioned copy by name",
                    "; ".join(bad) + ": a keyword that is not the distribution's main parameter is no longer refused (an evaluation with an unknown variable name returns a number)", f)
+        # ... and nothing the caller gave is dropped: a call that hands over the positional main parameter ONLY is reached only when the keyword map holds
+        # nothing besides the conditioning variables and that value (a doubly specified main parameter `d.logd(s, x, x=other)` or an unknown name
+        # `d.logd(s, x, zzz=1)` would otherwise be ignored and a number returned)
+        kw_, cv_ = b.get("kw", "kwargs"), b.get("cv")
+        LEFT = (f"[_k0 for _k0 in {kw_} if _k0 not in {cv_} and _k0!='_main_parameter']", f"[_k0 for _k0 in {kw_} if _k0!='_main_parameter' and _k0 not in {cv_}]",
+                f"[_k0 for _k0 in {kw_}.keys() if _k0 not in {cv_} and _k0!='_main_parameter']", f"set({kw_})-set({cv_})-{{'_main_parameter'}}",
+                f"set({kw_})-{{'_main_parameter'}}-set({cv_})")
+        GUARDS = [(f"len({kw_})>len({cv_})+1", "F"), (f"len({cv_})+1<len({kw_})", "F"), (f"len({kw_})!=len({cv_})+1", "F"), (f"len({kw_})==len({cv_})+1", "T"),
+                  (f"len({kw_})<=len({cv_})+1", "T")]
+        for L_ in LEFT:
+            GUARDS += [(f"0<len({L_})", "F"), (f"len({L_})>0", "F"), (f"len({L_})==0", "T"), (f"len({L_})!=0", "F"), (L_, "F")]
+        dropped = []
+        for n, c in inner:
+            if c.keywords or not c.args:
+                continue              # passes the named values on (checked above), or is the by-name call
+            gn = g.stmt_node_containing(c) or n
+            # the guard as written, or with the local it tests replaced by its definition (`extra = set(kw) - ...; if extra: raise`)
+            exg = Expander(v, g)
+            seen = {(pn(exg.expand(t_.ast, t_, stop=frozenset({kw_, cv_}))), lab_) for t_, lab_ in g.guards_of(gn)}
+            flip = {"T": "F", "F": "T"}
+            seen |= {(tx_[3:] if tx_.startswith("not") and not tx_[3:4].isalnum() else None, flip[lab_]) for tx_, lab_ in seen}
+            if not any(guarded(g, gn, p_, lab) for p_, lab in GUARDS) and not any((pn(p_), lab) in seen for p_, lab in GUARDS):
+                dropped.append(f"`{unparse(c)[:70]}` is reached with keywords besides the conditioning variables still in `{kw_}`")
+        chk.decide("C01-R1", f"{dist.qual}.logd/nothing-dropped", not dropped and bool(inner), bool(inner), site(repo, f),
+                   "the positional main parameter is evaluated alone only when no other keyword is left over",
+                   "; ".join(dropped) + ": a doubly specified main parameter or an unknown keyword is silently ignored and a number is returned instead of an error", f)
     cnd = repo.method(dist, "_condition")[1]
     S = stmts(repo, dist, cnd)
     b1, _ = unify(["$mv=self.get_mutable_variables()", "$cv=self.get_conditioning_variables()", "for: $k : kwargs.keys()", "if: $k in $mv and $k not in $cv"], S)
@@ -315,6 +342,102 @@ def _r1(chk, repo):
     rec = any(t.startswith("for:") and t.endswith("kwargs.keys()") for t, _ in S)
     chk.decide("C01-R1", f"{dist.qual}._condition/unknown-keywords", bool(b1 and b2), rec, site(repo, cnd), "unknown keywords and fixed mutable variables are refused",
                "conditioning accepts unknown keywords", cnd)
+    _r1_leftover(chk, repo, dist, cnd)
+    _r1_joint_unknown(chk, repo)
+
+
+def _r1_joint_unknown(chk, repo):
+    """JointDistribution._condition: a keyword that no factor accepts is refused before the factors are conditioned (otherwise it is silently ignored:
+    `J(x=.., y=.., zzz=1).logd()` is a number for an assignment with an unknown variable, `J(Y=data)` is the joint unconditioned)"""
+    jd = repo.cls(f"{JD}:JointDistribution")
+    cnd = repo.method(jd, "_condition")[1]
+    v, g = cfgv(repo, jd, cnd, 2)
+    ex = Expander(v, g)
+    stores = [n for n in g.nodes if n.kind == "stmt" and isinstance(n.ast, ast.Assign) and isinstance(n.ast.targets[0], ast.Subscript)
+              and (path_of(n.ast.targets[0].value) or "").endswith("._densities")]
+    rec = len(stores) >= 1
+    ok = False
+    if rec:
+        for t in g.tests():
+            tx = pn(ex.expand(t.ast, t, stop=frozenset({"kwargs"})))
+            if "get_parameter_names()" not in tx:
+                continue
+            # one edge of the test leads to a raise only, and the factor-by-factor conditioning is reached through the other
+            for lab in ("T", "F"):
+                succ = [m for m, l2 in g.succ[t.id] if l2 == lab]
+                if succ and all(g.nodes[m].kind == "raisestmt" for m in succ) and all(g.dominates(t, s_) or any(g.dominates(lp, s_) and g.dominates(lp, t)
+                                                                                                              for lp in g.nodes if lp.kind == "iter") for s_ in stores):
+                    ok = True
+    chk.decide("C01-R1", f"{jd.qual}._condition/unknown-names", ok, rec, site(repo, cnd), "a keyword no factor accepts is refused before conditioning",
+               "conditioning a joint distribution silently ignores a keyword that none of its factors accepts (a misspelt or unknown variable): after fixing "
+               "all real variables the result evaluates to a number although an unknown variable was given", cnd)
+
+
+def _leftover_edge(ex, t):
+    """if test node t asks "are there keywords that were not used" (`0 < len(set(kwargs) - processed [- {'_main_parameter'}])` in any of its spellings, possibly
+    through a local), the label of the edge on which there ARE leftovers; else None"""
+    e = ex.expand(t.ast, t, stop=frozenset({"kwargs"}))
+    lab = "T"
+    while isinstance(e, ast.UnaryOp) and isinstance(e.op, ast.Not):
+        e, lab = e.operand, ("F" if lab == "T" else "T")
+    if isinstance(e, ast.Compare) and len(e.ops) == 1:
+        l_, r_ = e.left, e.comparators[0]
+        zero = lambda x: isinstance(x, ast.Constant) and x.value == 0
+        ln = lambda x: isinstance(x, ast.Call) and call_name(x) == "len" and len(x.args) == 1
+        op = type(e.ops[0])
+        if zero(l_) and ln(r_) and op in (ast.Lt, ast.NotEq):
+            e = r_.args[0]
+        elif ln(l_) and zero(r_) and op in (ast.Gt, ast.NotEq):
+            e = l_.args[0]
+        elif (zero(l_) and ln(r_) or ln(l_) and zero(r_)) and op is ast.Eq:
+            e = (r_ if ln(r_) else l_).args[0]
+            lab = "F" if lab == "T" else "T"
+        else:
+            return None
+    # e: set(kwargs[.keys()]) - <used> [- {'_main_parameter'}] ...
+    subs = 0
+    while isinstance(e, ast.BinOp) and isinstance(e.op, ast.Sub):
+        e = e.left
+        subs += 1
+    if subs >= 1 and isinstance(e, ast.Call) and call_name(e) == "set" and len(e.args) == 1 and pn(e.args[0]) in ("kwargs", "kwargs.keys()"):
+        return lab
+    return None
+
+
+def _r1_leftover(chk, repo, dist, cnd):
+    """Distribution._condition: a keyword that was not used to fix a conditioning variable is either this distribution's own name (-> likelihood) or refused.
+    Decided on the flow graph: (1) no value is returned before the function has asked whether keywords are left over; (2) from the edge on which some ARE
+    left over, a return is reached only through the refusal loop (`for k in kwargs: if k not in mutable + conditioning + [name]: raise`)."""
+    v, g = cfgv(repo, dist, cnd, 1)
+    ex = Expander(v, g)
+    tests = [(t, _leftover_edge(ex, t)) for t in g.tests()]
+    tests = [(t, lab) for t, lab in tests if lab is not None]
+    loops = []
+    for n in g.nodes:
+        if n.kind == "iter" and pn(ex.expand(n.ast.iter, n, stop=frozenset({"kwargs"}))) in ("kwargs", "kwargs.keys()") and isinstance(n.ast.target, ast.Name):
+            k_ = n.ast.target.id
+            body = n.ast.body
+            if len(body) == 1 and isinstance(body[0], ast.If) and not body[0].orelse and body[0].body and isinstance(body[0].body[-1], ast.Raise):
+                tt = body[0].test
+                if isinstance(tt, ast.Compare) and len(tt.ops) == 1 and isinstance(tt.ops[0], ast.NotIn) and pn(tt.left) == k_ and "self.name" in pn(ex.expand(tt.comparators[0], n)):
+                    loops.append(n)
+    rets = g.returns()
+    rec = bool(tests) and bool(loops) and bool(rets)
+    bad = []
+    if rec:
+        early = g.reachable_from([g.entry.id], avoid_nodes={t.id for t, _ in tests} | {n.id for n in loops})
+        for r in rets:
+            if r.id in early:
+                bad.append(f"`{unparse(r.ast)[:60]}` (line {getattr(r.ast, 'lineno', '?')}) is reached before the keywords that were not used have been looked at")
+        starts = [m for t, lab in tests for m, l2 in g.succ[t.id] if l2 == lab]
+        late = g.reachable_from(starts, avoid_nodes={n.id for n in loops})
+        for r in rets:
+            if r.id in late and r.id not in early:
+                bad.append(f"`{unparse(r.ast)[:60]}` (line {getattr(r.ast, 'lineno', '?')}) is reached with unused keywords without passing the refusal of unknown names")
+    chk.decide("C01-R1", f"{dist.qual}._condition/leftover-refused", rec and not bad, rec, site(repo, cnd),
+               "every exit either has no unused keyword or passed the refusal of unknown names",
+               "; ".join(bad) + ": conditioning with an unknown or doubly specified keyword (`d(s, x, x=other)`, `d(x=v, zzz=1)`) silently ignores it; when all "
+               "variables are fixed that is an evaluation returning a number", cnd)
 
 
 def _r2(chk, repo):
